@@ -953,6 +953,17 @@ class Model:
             Self: The instance of the model with the parameter converted to a variable.
 
         """
+        if name not in self._parameters:
+            msg = f"{name!r} not found in parameters"
+            raise KeyError(msg)
+        for rxn_name in {} if stoichiometries is None else stoichiometries:
+            if rxn_name not in self._reactions and not any(
+                surrogate.stoichiometries.get(rxn_name)
+                for surrogate in self._surrogates.values()
+            ):
+                msg = f"Reaction '{rxn_name}' not found in reactions or surrogates"
+                raise KeyError(msg)
+
         value = self._parameters[name].value if initial_value is None else initial_value
         self.remove_parameter(name)
         self.add_variable(name, value)
